@@ -346,3 +346,72 @@ def r10_oct_twin_lookups(ctx, rid="C04.r10"):
 
 
 RULES += [r10_oct_twin_lookups]
+
+
+# maps in which a MISSING key means "no states" (bottom-like): walking the left operand only is then the right direction
+_MISSING_MEANS_BOTTOM = {}
+
+
+def r11_leq_walks_right_map(ctx):
+    ctx.rule("C04.r11", "an inclusion test that walks a variable-keyed map of the LEFT operand key by key also walks the same map of the "
+             "RIGHT operand (a missing key means `unconstrained`): what only the right operand constrains is otherwise never compared "
+             "and the test answers yes for a left operand that describes more states", floor=2)
+    files = [f for f in ctx.db.files() if f.startswith("include/crab/domains/")]
+    n = 0
+    seen = set()
+    for f in files:
+        for fn in ctx.db.fns(f, name="operator<="):
+            body = fn.get("body")
+            if not body or not fn.get("cpk") or len(fn.get("params", [])) != 1:
+                continue
+            decls = local_decls(body)
+
+            def side(e):
+                """'L' if e denotes *this or a local copy of it, 'R' for the parameter or a local copy of it"""
+                e = strip_move(e)
+                for _ in range(3):
+                    if is_this(e) or (isinstance(e, dict) and e.get("k") == "un" and e.get("op") == "*" and is_this(strip(e.get("e")))):
+                        return "L"
+                    if is_param(e, fn, 0):
+                        return "R"
+                    if isinstance(e, dict) and e.get("k") == "ref" and e.get("rk") == "local":
+                        d = decls.get(e.get("id"))
+                        if d is None or "i" not in d:
+                            return None
+                        e = strip_move(d["i"])
+                        # copy construction T x(y) / T x = y
+                        if isinstance(e, dict) and e.get("k") in ("construct", "ctor") and e.get("a"):
+                            e = strip_move(e["a"][0])
+                        continue
+                    return None
+                return None
+            walked = {}
+            for l in walk(body, into_lambdas=True):
+                if l.get("k") != "rangefor":
+                    continue
+                r = strip(l.get("r"))
+                if not (isinstance(r, dict) and r.get("k") == "mem"):
+                    continue
+                base = r.get("b")
+                sd = "L" if (base is None or is_this(strip(base))) else side(base)
+                if sd is None:
+                    continue
+                walked.setdefault(r.get("n"), {}).setdefault(sd, l)
+            for fld, sides in sorted(walked.items()):
+                if "L" not in sides:
+                    continue
+                key = (fn["cpk"], fld)
+                n += 1
+                if key in _MISSING_MEANS_BOTTOM:
+                    ctx.exempt("%s::operator<= walks %s of the left operand only: %s" % (fn["cpk"], fld, _MISSING_MEANS_BOTTOM[key]), fn, sides["L"])
+                elif "R" in sides:
+                    ctx.ok("%s::operator<=: %s of both operands is walked" % (fn["cpk"].split("::")[-1], fld), fn, sides["R"])
+                else:
+                    ctx.bad("%s::operator<= walks `%s` of the LEFT operand only: a variable that only the right operand constrains is never "
+                            "compared, so {y = 1} <= {y = 1, 0 <= x <= 5} answers yes" % (fn["cpk"], fld), fn, sides["L"],
+                            sig="leq-left-keys-only:%s" % fld)
+    if n == 0:
+        ctx.fail("rule C04.r11: no inclusion test walks a map of its left operand (term_domain / uf_domain moved?)")
+
+
+RULES += [r11_leq_walks_right_map]
